@@ -62,8 +62,67 @@ type Replay struct {
 	Sig        string     `json:"schedule_signature,omitempty"`
 	Native     bool       `json:"native_fallback,omitempty"` // observed under real goroutine scheduling: replay is statistical
 	SimsFirst  bool       `json:"sims_first,omitempty"` // the simulated run came before the sequential reference in its process (first uses happen inside tasks)
+	Alone      *AloneCase `json:"alone_case,omitempty"`
 	Trace      []string   `json:"trace,omitempty"`
 	Note       string     `json:"note,omitempty"`
+}
+
+// AloneCase: "the same result it returns when run alone" taken literally - alone in a fresh
+// process. Target run first thing in a fresh process gives Fresh; run (still alone, on its own
+// fresh instance) in a process that has executed Prelude before, it gives Here.
+type AloneCase struct {
+	Codec   string   `json:"codec"`
+	Prelude []OpSpec `json:"prelude"`
+	Target  OpSpec   `json:"target"`
+	Fresh   string   `json:"fresh_outcome,omitempty"`
+	Here    string   `json:"outcome_after_prelude,omitempty"`
+}
+
+// aloneInChild executes the case in a fresh single-P child process and returns the target's outcome key.
+func aloneInChild(c *AloneCase) (string, error) {
+	dir, err := os.MkdirTemp("", "c10alone")
+	if err != nil {
+		return "", err
+	}
+	defer os.RemoveAll(dir)
+	b, _ := json.Marshal(c)
+	path := dir + "/case.json"
+	if err := os.WriteFile(path, b, 0o644); err != nil {
+		return "", err
+	}
+	cmd := exec.Command(os.Args[0], "-mode", "aloneprobe", "-file", path)
+	cmd.Env = append(os.Environ(), "GOMAXPROCS=1", "GORACE=log_path="+dir+"/race halt_on_error=0 exitcode=0 history_size=2")
+	outb, err := cmd.Output()
+	progress()
+	for _, ln := range strings.Split(string(outb), "\n") {
+		if strings.HasPrefix(ln, "ALONE-OUTCOME=") {
+			return strings.TrimPrefix(ln, "ALONE-OUTCOME="), nil
+		}
+	}
+	return "", fmt.Errorf("child gave no outcome (%v)", err)
+}
+
+func runAloneProbe(file string) int {
+	b, err := os.ReadFile(file)
+	if err != nil {
+		return 2
+	}
+	var c AloneCase
+	if err := json.Unmarshal(b, &c); err != nil {
+		return 2
+	}
+	for _, o := range append(append([]OpSpec{}, c.Prelude...), c.Target) {
+		if catByName[o.Type] == nil {
+			fmt.Println("ALONE-ERROR unknown type", o.Type)
+			return 2
+		}
+	}
+	for _, o := range c.Prelude {
+		execOp(newEnv(c.Codec), prepare(o))
+	}
+	out := execOp(newEnv(c.Codec), prepare(c.Target))
+	fmt.Printf("ALONE-OUTCOME=%s\n", out.Key())
+	return 0
 }
 
 type Sample struct {
@@ -184,6 +243,9 @@ func main() {
 		os.Exit(runReplay(*file, true))
 	case "minimise":
 		os.Exit(runMinimise(*file, *out))
+	case "aloneprobe":
+		runtime.GOMAXPROCS(1)
+		os.Exit(runAloneProbe(*file))
 	case "showop":
 		rp, err := loadReplay(*file)
 		if err != nil {
@@ -261,6 +323,14 @@ func runWorker(master uint64, worker, workers, scheds, maxProgs int, budget floa
 			}
 		}
 		progress()
+		for _, ops := range w.Tasks {
+			for _, o := range ops {
+				recentOps = append(recentOps, recentOp{w.Codec, o})
+			}
+		}
+		if len(recentOps) > 400 {
+			recentOps = recentOps[len(recentOps)-400:]
+		}
 		writeMarker := func(s int, cfg RunCfg) {
 			if outPath == "" {
 				return
@@ -385,6 +455,58 @@ func runWorker(master uint64, worker, workers, scheds, maxProgs int, budget floa
 			st.Executions++
 			goto done
 		}
+		// fresh-process alone probe: does "alone" in this (long-lived) process still mean what it means
+		// in a fresh one? Dynamic twins first (state keyed by name instead of by descriptor shows there).
+		if aloneProbeBudget > 0 && !seenKeys["result_differs@process_history"] {
+			tt, ti := -1, -1
+			for t, ops := range w.Tasks {
+				for i, o := range ops {
+					if strings.HasPrefix(o.Type, "twin:") && tt < 0 {
+						tt, ti = t, i
+					}
+				}
+			}
+			if tt < 0 && simrt.Derive(wseed, 0xa10)%40 == 0 {
+				tt, ti = 0, 0
+			}
+			if tt >= 0 {
+				aloneProbeBudget--
+				st.Probes["fresh_process_alone_probes"]++
+				target := w.Tasks[tt][ti]
+				here := adm.alone[tt][ti].Key()
+				if fresh, err := aloneInChild(&AloneCase{Codec: w.Codec, Target: target}); err == nil && fresh != here {
+					// which earlier calls are responsible? all recent ones first, then shrink
+					var pre []OpSpec
+					for _, ro := range recentOps {
+						if ro.codec == w.Codec || true {
+							pre = append(pre, ro.op)
+						}
+					}
+					c := &AloneCase{Codec: w.Codec, Prelude: pre, Target: target, Fresh: fresh, Here: here}
+					if got, err := aloneInChild(c); err == nil && got != fresh {
+						for chunk := len(c.Prelude) / 2; chunk >= 1; chunk /= 2 {
+							for k := 0; k+chunk <= len(c.Prelude); {
+								cand := &AloneCase{Codec: c.Codec, Target: target, Prelude: append(append([]OpSpec{}, c.Prelude[:k]...), c.Prelude[k+chunk:]...)}
+								if g, err := aloneInChild(cand); err == nil && g != fresh {
+									c.Prelude = cand.Prelude
+									c.Here = g
+								} else {
+									k += chunk
+								}
+							}
+						}
+						v := &Violation{Class: "result_differs", Task: tt, Op: ti, OpSpec: "process_history(" + target.String() + ")",
+							Detail: fmt.Sprintf("%s run alone first thing in a fresh process returns %s; run alone, on its own fresh instance, in a process that executed %v before, it returns %s: process-wide state leaks between instances", target.String(), fresh, opsStrings(c.Prelude), c.Here)}
+						seenKeys["result_differs@process_history"] = true
+						res.Violations = append(res.Violations, &Replay{Property: "C10", MasterSeed: master, RunIndex: idx, SchedIndex: -1,
+							Workload: &Workload{Codec: w.Codec, Tasks: [][]OpSpec{{target}}}, Run: RunCfg{Policy: simrt.Policy{Mode: "serial"}},
+							Violation: v, FindingKey: v.Key(), Minimised: true, Alone: c, Note: "found by the fresh-process alone probe"})
+					} else {
+						st.Probes["sequential_anomaly_not_reproduced_in_fresh_process"]++
+					}
+				}
+			}
+		}
 		process := func(pr pendingRun) {
 			s, cfg, pol, r := pr.s, pr.cfg, pr.pol, pr.r
 			vs := judge(w, prep, warm, adm, r, wseed, estYields)
@@ -496,6 +618,17 @@ done:
 }
 
 var seqVerifyBudget = 12
+
+// aloneProbeBudget bounds the child processes a worker spawns for fresh-process alone probes.
+var aloneProbeBudget = 10
+
+type recentOp struct {
+	codec string
+	op    OpSpec
+}
+
+// recentOps: the operations this process has executed lately, oldest first.
+var recentOps []recentOp
 
 // probeInChild runs one replay file in a fresh single-P process and returns the key of the
 // violation it shows ("" if none).
@@ -634,6 +767,21 @@ func runReplay(file string, verbose bool) int {
 		fmt.Fprintln(os.Stderr, "replay:", err)
 		return 2
 	}
+	if rp.Alone != nil {
+		fresh, err1 := aloneInChild(&AloneCase{Codec: rp.Alone.Codec, Target: rp.Alone.Target})
+		after, err2 := aloneInChild(rp.Alone)
+		if err1 != nil || err2 != nil {
+			fmt.Println("REPLAY: child process failed:", err1, err2)
+			return 2
+		}
+		if fresh != after {
+			fmt.Printf("REPLAY: violation class=%s key=%s: %s run alone first thing in a fresh process returns %s; run alone (on its own fresh instance) in a process that executed %v before, it returns %s\n",
+				rp.Violation.Class, rp.Violation.Key(), rp.Alone.Target.String(), fresh, opsStrings(rp.Alone.Prelude), after)
+			return 1
+		}
+		fmt.Println("REPLAY: no violation (same outcome with and without the earlier calls)")
+		return 0
+	}
 	// A race report depends on sync.Pool traffic inside fmt (which the race runtime treats as
 	// synchronisation and which drops items at random), so it is retried on fresh instances.
 	v, r := replayOnce(rp, 25, verbose)
@@ -686,6 +834,12 @@ func runMinimise(file, out string) int {
 	if err != nil {
 		fmt.Fprintln(os.Stderr, "minimise:", err)
 		return 2
+	}
+	if rp.Alone != nil {
+		rp.Minimised = true
+		b, _ := json.MarshalIndent(rp, "", " ")
+		_ = os.WriteFile(out, b, 0o644)
+		return 0
 	}
 	key := rp.Violation.Key()
 	class := rp.Violation.Class
